@@ -12,7 +12,7 @@ PatOps == {"%", "%%", "#", "##"}
 Cases(k) ==
     {[p |-> PKinds[k].p, vst |-> PKinds[k].vst, args |-> ArgSets[a], op |-> op, w |-> w, q |-> q, ifs |-> ifs, nounset |-> nu] :
         a \in 1..Len(ArgSets), op \in WordOps \cup PatOps \cup {"", "len"}, w \in {"w", "uv", "at", "side", "pat", "patbs", "none"},
-        q \in {"none", "dq", "wq"}, ifs \in {"default", "comma", "empty", "mb"}, nu \in BOOLEAN}
+        q \in {"none", "dq", "wq"}, ifs \in {"default", "comma", "empty", "mb", "digit"}, nu \in BOOLEAN}
 Valid(c) == /\ (c.op \in WordOps) <=> (c.w \in {"w", "uv", "side", "at"})
             /\ (c.w = "at") => (c.op \in {":-", "-", ":+", "+"} /\ c.q = "none")
             /\ (c.op \in PatOps) <=> (c.w \in {"pat", "patbs"})
